@@ -206,6 +206,17 @@ class PyModule:
             if not all(isinstance(v, str) for v in vals):
                 raise Unsupported('set of non-strings')
             return const_set(vals)
+        if isinstance(node, (ast.Tuple, ast.List)):
+            vals = [self._const(e) for e in node.elts]
+            if not all(isinstance(v, (str, int, float)) for v in vals):
+                raise Unsupported('tuple of non-constants')
+            return tuple(vals)
+        if isinstance(node, ast.Call) and isinstance(node.func, ast.Name) and node.func.id in ('frozenset', 'set') and len(node.args) == 1:
+            inner = self._const(node.args[0])
+            if isinstance(inner, tuple) and all(isinstance(v, str) for v in inner):
+                return const_set(list(inner))
+            if isinstance(inner, SymSet):
+                return inner
         raise Unsupported('module constant ' + ast.dump(node)[:80])
 
     def call(self, name, args):
@@ -253,12 +264,16 @@ class PyModule:
             elif isinstance(t, ast.Subscript) and isinstance(t.value, ast.Name):
                 key = self._eval(t.slice, env)
                 d = env.get(t.value.id)
-                if not isinstance(d, dict) or not isinstance(key, str):
+                if not isinstance(d, dict):
                     raise Unsupported('subscript assignment')
-                if key not in d:
-                    raise Unsupported('assignment to new dict key %r' % key)
                 d = dict(d)
-                d[key] = val
+                if isinstance(key, str):
+                    d[key] = val
+                elif isinstance(key, tuple) and key and key[0] == 'keyalt':
+                    for c, k in key[1]:
+                        d[k] = merge([(c, val), (z3.Not(c), d.get(k, 0.0))])
+                else:
+                    raise Unsupported('subscript assignment with symbolic key')
                 env[t.value.id] = d
             else:
                 raise Unsupported('assignment target ' + ast.dump(t)[:60])
@@ -271,6 +286,25 @@ class PyModule:
             if not z3.is_true(c):
                 out.extend(self._exec_block(st.orelse, dict(env), z3.And(pc, z3.Not(c)), results))
             return out
+        if isinstance(st, ast.For) and isinstance(st.target, ast.Name) and not st.orelse:
+            it = self._eval(st.iter, env)
+            if isinstance(it, SymSet) and all(isinstance(x, str) and z3.is_true(z3.simplify(zbool(g))) for g, x in it.items):
+                items = [x for _, x in it.items]
+            elif isinstance(it, (tuple, list)) and all(isinstance(x, (str, int, float)) for x in it):
+                items = list(it)
+            else:
+                raise Unsupported('python for-loop over a non-constant collection')
+            conts = [(env, pc)]
+            for x in items:                      # constant collection: unrolled
+                nxt = []
+                for (e, p) in conts:
+                    e2 = dict(e)
+                    e2[st.target.id] = x
+                    nxt.extend(self._exec_block(st.body, e2, p, results))
+                conts = nxt
+            return conts
+        if isinstance(st, ast.Pass):
+            return [(env, pc)]
         raise Unsupported('python statement ' + type(st).__name__)
 
     def _truth(self, v):
@@ -347,10 +381,20 @@ class PyModule:
             b = self._eval(n.comparators[0], env)
             op = n.ops[0]
             if isinstance(op, (ast.In, ast.NotIn)):
+                if isinstance(b, tuple) and all(isinstance(x, str) for x in b):
+                    b = const_set(list(b))
                 if not isinstance(b, SymSet):
                     raise Unsupported('in on non-set')
-                r = b.contains(a)
+                if isinstance(a, SymStr):
+                    if not all(isinstance(x, str) for _, x in b.items):
+                        raise Unsupported('symbolic string in symbolic set')
+                    r = z3.Or(*[z3.And(zbool(g), a.eq_const(x)) for g, x in b.items]) if b.items else z3.BoolVal(False)
+                else:
+                    r = b.contains(a)
                 return r if isinstance(op, ast.In) else z3.Not(r)
+            if isinstance(op, (ast.Eq, ast.NotEq)) and (isinstance(a, (str, SymStr)) or isinstance(b, (str, SymStr))):
+                r = str_eq(a, b)
+                return r if isinstance(op, ast.Eq) else z3.Not(r)
             return _num_compare(type(op).__name__, a, b)
         if isinstance(n, ast.SetComp):
             if len(n.generators) != 1 or n.generators[0].ifs or not isinstance(n.generators[0].target, ast.Name):
@@ -376,6 +420,13 @@ class PyModule:
                 args = [self._eval(a, env) for a in n.args]
                 if f == 'abs' and len(args) == 1:
                     return z3.fpAbs(fp(args[0]))
+                if f in ('any', 'all') and len(args) == 1 and isinstance(args[0], tuple) and args[0][0] == 'guarded-seq':
+                    seq = args[0][1]
+                    if f == 'any':
+                        return z3.Or(*[z3.And(g, self._truth(v)) for g, v in seq]) if seq else z3.BoolVal(False)
+                    return z3.And(*[z3.Implies(g, self._truth(v)) for g, v in seq]) if seq else z3.BoolVal(True)
+                if f in ('set', 'frozenset', 'list', 'tuple') and len(args) == 1 and isinstance(args[0], tuple) and args[0] and args[0][0] == 'guarded-seq':
+                    return SymSet([(g, v) for g, v in args[0][1]])
                 if f == 'bool' and len(args) == 1:
                     v = args[0]
                     if isinstance(v, tuple) and v[0] == 'nonempty?':
@@ -386,6 +437,39 @@ class PyModule:
                 raise Unsupported('python call ' + f)
         if isinstance(n, ast.List) and not n.elts:
             return SymList(z3.BoolVal(True), z3.IntVal(0), [])
+        if isinstance(n, (ast.Tuple, ast.List)):
+            vals = [self._eval(e, env) for e in n.elts]
+            if all(isinstance(v, (str, int, float)) for v in vals):
+                return tuple(vals)
+            raise Unsupported('tuple/list of non-constants')
+        if isinstance(n, ast.IfExp):
+            c = self._truth(self._eval(n.test, env))
+            a, b = self._eval(n.body, env), self._eval(n.orelse, env)
+            if isinstance(a, str) and isinstance(b, str):
+                return ('keyalt', [(c, a), (z3.Not(c), b)])
+            return merge([(c, a), (z3.Not(c), b)])
+        if isinstance(n, ast.GeneratorExp) or isinstance(n, ast.ListComp):
+            if len(n.generators) != 1 or not isinstance(n.generators[0].target, ast.Name):
+                raise Unsupported('comprehension shape')
+            g0 = n.generators[0]
+            it = self._eval(g0.iter, env)
+            if isinstance(it, SymList):
+                pairs = it.guarded_items()
+            elif isinstance(it, SymSet):
+                pairs = list(it.items)
+            elif isinstance(it, tuple):
+                pairs = [(z3.BoolVal(True), x) for x in it]
+            else:
+                raise Unsupported('comprehension over %r' % (it,))
+            out = []
+            for g, x in pairs:
+                e2 = dict(env)
+                e2[g0.target.id] = x
+                cond = zbool(g)
+                for c in g0.ifs:
+                    cond = z3.And(cond, self._truth(self._eval(c, e2)))
+                out.append((cond, self._eval(n.elt, e2)))
+            return ('guarded-seq', out)
         raise Unsupported('python expression ' + type(n).__name__)
 
 
